@@ -90,6 +90,10 @@ func (ex *Exec) intercept(st *State, th *Thread, f *Frame, fn *ssa.Function, arg
 			return ret(BoolC(ok && t.Op != OConst))
 		case "verifNoMerge":
 			return ret(nil)
+		case "verifQuick":
+			return ret(BoolC(ex.cfg.Tier != "thorough"))
+		case "verifSeed":
+			return ret(BVC(64, ex.cfg.Seed))
 		case "verifAnd":
 			return ret(c.And(args[0].(*Term), args[1].(*Term)))
 		case "verifOr":
@@ -190,14 +194,12 @@ func (ex *Exec) checkAssert(st *State, f *Frame, cond *Term, msg string) {
 	default:
 		ex.rep.Unknowns = append(ex.rep.Unknowns, fmt.Sprintf("assertion %q undecided (%s) at %s", msg, ex.sol.LastErr, ex.site(f)))
 	}
-	// continue under the assumption that the assertion holds
-	r2, m2 := ex.feasible(st, cond)
-	if r2 == Unsat {
-		ex.endPath(st, "assert-always-fails")
-		return
+	// continue under the assumption that the assertion holds (lazily: an always-failing
+	// assertion makes the rest of the path infeasible, which the final check detects)
+	if ok, have := ex.modelHolds(st, cond); !have || !ok {
+		st.model = nil
 	}
 	ex.addPC(st, cond)
-	st.model = m2
 }
 
 // verifSplit(v, lo, hi): case split of v into constants.
